@@ -343,7 +343,7 @@ def handleCamvp (w h : Nat) (r1 : Rect) (r2 : Option Rect) (impl : List String) 
 
 /-! ### full camera: world point → pixel and depth; tiny triangle -/
 
-def handleCamproj (w h : Nat) (f near far : Q) (req : Rect) (view : M4 Q) (p : V3 Q) (order : String)
+def handleCamproj (w h : Nat) (f near far : Q) (req : Rect) (view : M4 Q) (p : V3 Q) (half : Q) (order : String)
     (impl : List String) : Verdict :=
   let c0 : Camera Q := Camera.new w h
   let cam : Outcome (Camera Q) :=
@@ -422,24 +422,44 @@ def handleCamproj (w h : Nat) (f near far : Q) (req : Rect) (view : M4 Q) (p : V
             else
               match t0.toNat?, more.map String.toNat? with
               | some n, [some x0, some x1, some y0, some y1, some sx, some sy, _] =>
-                let inDepth := near * (1 + 1 / 100) < q.z && q.z * (1 + 1 / 100) < far
-                let margin : Q := 5
-                let deepInside := (sp.l : Q) + margin ≤ px && px ≤ (sp.r : Q) - margin && (sp.t : Q) + margin ≤ py && py ≤ (sp.b : Q) - margin
-                if n == 0 then
-                  let v := tagOnce v "nothing-lit"
-                  v.withSpec (inDepth && deepInside) "render-nothing-drawn" s!"no pixel lit around the predicted pixel ({ratApprox px},{ratApprox py})"
-                else
-                  let v := tagOnce v "lit"
-                  -- drawing confined to requested ∩ frame
-                  let v := v.withSpec (x0 < sp.l || x1 ≥ sp.r || y0 < sp.t || y1 ≥ sp.b) "draws-outside-viewport"
-                    s!"lit pixels x∈[{x0},{x1}] y∈[{y0},{y1}] outside [{sp.l},{sp.r})×[{sp.t},{sp.b})"
-                  -- the lit blob is where pinhole geometry says (triangle centroid is 1/3 half-size above the point)
-                  let cx : Q := (sx : Q) / (n : Q) + 1 / 2; let cy : Q := (sy : Q) / (n : Q) + 1 / 2
-                  let v := v.withSpec (inDepth && deepInside && (ratAbs (cx - px) > 3 || ratAbs (cy - py) > 3)) "render-centroid-off"
-                    s!"lit centroid ({ratApprox cx},{ratApprox cy}), predicted pixel ({ratApprox px},{ratApprox py})"
-                  match f? (more.getD 6 "") with
-                  | some z => v.withSpec (inDepth && deepInside && ratAbs (z - depth) > depth / 200) "render-depth-off" s!"depth buffer {ratApprox z}, predicted {ratApprox depth}"
-                  | none => v.withSpec true "non-finite-output" "non-finite depth written"
+                -- the triangle the harness drew: c − ax − ay, c + ax − ay, c + ay with ax, ay = half · (rows 0, 1 of the
+                -- view matrix); its pinhole image, vertex by vertex (spec formula, case data only)
+                let ax : V3 Q := (⟨view.r0.x, view.r0.y, view.r0.z⟩ : V3 Q).smul half
+                let ay : V3 Q := (⟨view.r1.x, view.r1.y, view.r1.z⟩ : V3 Q).smul half
+                let pin (wp : V3 Q) : Option (Q × Q × Q) :=
+                  let qq := Spec.Mat.mulVec4 view ⟨wp.x, wp.y, wp.z, 1⟩
+                  if qq.z ≤ 0 then none
+                  else some ((sp.l : Q) + ((sp.r : Q) - (sp.l : Q)) / 2 * (1 + f * qq.x / qq.z),
+                             (sp.t : Q) + ((sp.b : Q) - (sp.t : Q)) / 2 * (1 + f * asp * qq.y / qq.z), qq.z)
+                match pin ((p.sub ax).sub ay), pin ((p.add ax).sub ay), pin (p.add ay) with
+                | some (ux, uy, uz), some (vx, vy, vz), some (wx, wy, wz) =>
+                  let bx0 := ratMin ux (ratMin vx wx); let bx1 := ratMax ux (ratMax vx wx)
+                  let by0 := ratMin uy (ratMin vy wy); let by1 := ratMax uy (ratMax vy wy)
+                  let zmin := ratMin uz (ratMin vz wz); let zmax := ratMax uz (ratMax vz wz)
+                  -- wholly inside the view volume, with a margin: then nothing is clipped away
+                  let inDepth := near * (1 + 1 / 100) < zmin && zmax * (1 + 1 / 100) < far
+                  let inside := (sp.l : Q) + 1 ≤ bx0 && bx1 ≤ (sp.r : Q) - 1 && (sp.t : Q) + 1 ≤ by0 && by1 ≤ (sp.b : Q) - 1
+                  let big := bx1 - bx0 ≥ 5 / 2 && by1 - by0 ≥ 5 / 2
+                  let v := if inDepth && inside then tagOnce v "tri-unclipped" else tagOnce v "tri-clipped"
+                  if n == 0 then
+                    let v := tagOnce v "nothing-lit"
+                    v.withSpec (inDepth && inside && big) "render-nothing-drawn"
+                      s!"no pixel lit although the triangle's image [{ratApprox bx0},{ratApprox bx1}]×[{ratApprox by0},{ratApprox by1}] is inside the viewport"
+                  else
+                    let v := tagOnce v "lit"
+                    -- drawing confined to requested ∩ frame, whatever is clipped
+                    let v := v.withSpec (x0 < sp.l || x1 ≥ sp.r || y0 < sp.t || y1 ≥ sp.b) "draws-outside-viewport"
+                      s!"lit pixels x∈[{x0},{x1}] y∈[{y0},{y1}] outside [{sp.l},{sp.r})×[{sp.t},{sp.b})"
+                    -- … and to the image of the triangle predicted by pinhole geometry (pixel centres, 0.02 px band → 1 px slack)
+                    let v := v.withSpec ((x0 : Q) + 1 / 2 < bx0 - 1 || (x1 : Q) + 1 / 2 > bx1 + 1 || (y0 : Q) + 1 / 2 < by0 - 1 || (y1 : Q) + 1 / 2 > by1 + 1)
+                      "render-outside-predicted-triangle"
+                      s!"lit pixels x∈[{x0},{x1}] y∈[{y0},{y1}], predicted triangle image [{ratApprox bx0},{ratApprox bx1}]×[{ratApprox by0},{ratApprox by1}]"
+                    let _ := (sx, sy)
+                    match f? (more.getD 6 "") with
+                    | some z => v.withSpec (inDepth && inside && (z < 1 / zmax * (1 - 1 / 500) || z > 1 / zmin * (1 + 1 / 500))) "render-depth-off"
+                        s!"depth buffer {ratApprox z}, predicted 1/z ∈ [{ratApprox (1 / zmax)},{ratApprox (1 / zmin)}]"
+                    | none => v.withSpec true "non-finite-output" "non-finite depth written"
+                | _, _, _ => tagOnce v "tri-behind-eye"
               | _, _ => bad "camproj render fields"
           | [] => bad "camproj render output"
     | _ => bad "camproj output"
@@ -554,7 +574,10 @@ def handle (case impl : List String) : Verdict :=
     match w.toNat?, h.toNat?, f? f, f? n, f? fa, rectOf hs vs, floats 16 rest with
     | some w, some h, some f, some n, some fa, some (.ok req), some (vm, rest) =>
       match m4? vm, take3 rest with
-      | some view, some (p, [_, order]) => handleCamproj w h f n fa req view p order impl
+      | some view, some (p, [hf, order]) =>
+        match f? hf with
+        | some half => handleCamproj w h f n fa req view p half order impl
+        | none => bad "camproj half"
       | _, _ => bad "camproj tail"
     | _, _, _, _, _, _, _ => bad "camproj"
   | "fp" :: rest =>
